@@ -44,6 +44,18 @@ CHECKS = {
  "C12": ("model_checking", "TLC on Transcript.tla with observed hashed sets + per-atom substitution observations validated by TLC",
          "for every ChallengeInput type and both composite proofs every non-response atom of the wire form is replaced by another valid atom and the recorded transcript / challenge is compared; "
          "builder challenge = proof challenge and challenge = SHA3(transcript) are checked; TLC decides Binding/FirstMessageHashed on Transcript.tla for the observed sets", "6 C12"),
+ "C14": ("model_checking", "TLC on AtomFlow.tla (NoReuse, with RERANDOMIZE spec mutant) + atoms of real multi-channel histories validated by TLC",
+         "every 32/48/96-byte atom of every message of real histories (3 channels, refused replies, closes from every stage, one close under a zero re-randomiser) is interned and TLC checks against the "
+         "merchant's accumulated view and the secrets held in the customer state (Trace_Atoms: NoReuse, NoSecretLeak)", "6 C14"),
+ "C17": ("model_checking", "TLC on Ledger.tla for every input of a W-bit machine + real 64-bit operations validated by TLC with limb arithmetic",
+         "MC_Ledger checks totality, exactness, error kinds, conservation, the scalar-encoding homomorphism and the limb-arithmetic refinement exhaustively for W = 3..5; ~8000 real calls on the 64-bit boundary lattice "
+         "(constructors, try_add, payment application through Ready::start, wire-decoded amounts incl. i64::MIN through allow_payment, overflow checks on) are recomputed by TLC", "6 C17"),
+ "C18": ("model_checking", "TLC on Rng.tla (nonce loop) and ZkAbacus.tla (TagSeparation) + crafted randomness streams, type confusion and channel-id inputs validated by TLC",
+         "Nonce::new and the state constructors are run on streams containing values congruent to the close tag (close + j*q) at every scalar-draw position; pay tokens and closing signatures are swapped "
+         "through the library paths and evaluated independently on both message layouts; every channel-id input is changed alone", "6 C18"),
+ "C19": ("model_checking", "TLC on Rng.tla (key scalar loop) + key / parameter generation under zero windows at every scalar-draw position validated by TLC",
+         "KeyPair<N>, Pedersen parameters, range parameters and merchant::Config are generated on streams with all-zero windows at every scalar-draw offset; non-zero secrets, non-identity public elements, "
+         "shared G1/G2 logarithms (pairings), decoder acceptance, valid signatures, validate() and fresh signature bases are logged and validated", "6 C19"),
  "C20": ("model_checking", "TLC on ZkAbacus.tla (Restore refines stuttering) + twin execution at every step validated by TLC",
          "every customer API call of every explored history is executed on the live object and on a twin restored from its bincode image with the same randomness; TLC validates that restores are "
          "stuttering steps and that the twin agrees byte-for-byte (aspect twin) at every event", "6 C20"),
